@@ -96,3 +96,17 @@ Theorem C02_eclipse_enclosed : forall aI bI cI dI a b c d,
   encloses (@eclipse I.type IvTNum aI bI cI dI) (@eclipse R RTNum a b c d).
 Proof. exact eclipse_transfer. Qed.
 Print Assumptions C02_eclipse_enclosed.
+
+(* the layered integral itself (sums over layers; the saturation flags are inputs) and its correlated-k form:
+   pointwise-enclosing inputs give an enclosing result *)
+Theorem C02_intensity_enclosed : forall BI BR dI dR cA cD mI mR,
+  encl_list BI BR -> encl_list dI dR -> encloses mI mR ->
+  encloses (@intensity _ IvTNum BI dI cA cD mI) (@intensity R RTNum BR dR cA cD mR).
+Proof. exact intensity_transfer. Qed.
+Print Assumptions C02_intensity_enclosed.
+
+Theorem C02_kintensity_enclosed : forall BI BR dI dR kdI kdR wI wR mI mR,
+  encl_list BI BR -> encl_list dI dR -> Forall2 encl_list kdI kdR -> encl_list wI wR -> encloses mI mR ->
+  encloses (@kintensity _ IvTNum BI dI kdI wI mI) (@kintensity R RTNum BR dR kdR wR mR).
+Proof. exact kintensity_transfer. Qed.
+Print Assumptions C02_kintensity_enclosed.
